@@ -239,6 +239,9 @@ def check_dict(rec, fd, d, mfa, before, out, kind, bad, where="dict"):
         return
     for f, n in zip(d.flows, names):
         snap = before["flows"][n]
+        if n not in out["flow_dimensions"] or n not in out["flow_processes"]:
+            bad(f"{where}:flow-missing-from-dimension-or-process-table", flow=n)
+            continue
         if tuple(out["flow_dimensions"][n]) != tuple(f["letters"]):
             bad(f"{where}:flow-dimensions-differ", flow=n, got=list(out["flow_dimensions"][n]))
         if tuple(out["flow_processes"][n]) != (f["src"], f["dst"]):
@@ -250,7 +253,9 @@ def check_dict(rec, fd, d, mfa, before, out, kind, bad, where="dict"):
         return
     for s in d.stocks:
         n = s["name"]
-        if tuple(out["stock_dimensions"][n]) != tuple(s["letters"]):
+        if n not in out["stock_dimensions"]:
+            bad(f"{where}:stock-missing-from-dimension-table", stock=n)
+        elif tuple(out["stock_dimensions"][n]) != tuple(s["letters"]):
             bad(f"{where}:stock-dimensions-differ", stock=n)
         if s["process"] is None:
             if n in out["stock_processes"]:
